@@ -488,6 +488,31 @@ func runChild(script, dir string, seed int64, prm []int) {
 			}
 			e.restore(e.lastRemote)
 		}
+	case "republish":
+		// publishes OVER existing final names, each acknowledged: the same snapshot twice,
+		// L0 files uploaded again after the replica position was set back, sidecar rewritten
+		for i := 0; i < rounds+1; i++ {
+			round()
+		}
+		e.upload()
+		e.snapshot()
+		e.snapshot()
+		if e.lastRemote >= 3 {
+			back := ltx.TXID(1 + e.r.Intn(2))
+			e.db.Replica.SetPos(ltx.Pos{TXID: e.lastRemote - back})
+			e.lastRemote -= back
+			e.upload()
+		}
+		e.compact(1)
+		e.compact(1)
+		round()
+		e.upload()
+		e.snapshot()
+		e.snapshot()
+		e.restore(e.lastRemote)
+		for i := 0; i < 3; i++ {
+			e.sidecar(e.lastRemote)
+		}
 	case "rerestore":
 		// restore, remove the output directory, restore into the re-created directory;
 		// compaction and retention empty replica level directories in between
